@@ -103,16 +103,29 @@ func driveC01(o opts) error {
 		nt := 2 + g.Intn(ntxn-1)
 		// one or two monitors on disjoint tables
 		tabs := g.R.Perm(len(sc.Tables))
-		nm := 1 + g.Intn(2)
+		nm := 1 + g.Intn(3)
 		var mons []*cliMon
 		split := 1 + g.Intn(len(tabs)-1)
 		groups := [][]int{tabs}
 		if nm == 2 {
 			groups = [][]int{tabs[:split], tabs[split:]}
+		} else if nm == 3 && len(tabs) >= 3 {
+			groups = [][]int{tabs[:1], tabs[1:2], tabs[2:]}
+		}
+		// one connection-wide method in half of the cases (several monitor_cond_since monitors
+		// receive one update3 each, with the same transaction id, for a transaction touching their tables)
+		methods := []string{ovsdb.MonitorRPC, ovsdb.ConditionalMonitorRPC, ovsdb.ConditionalMonitorSinceRPC, ovsdb.ConditionalMonitorSinceRPC}
+		same := ""
+		if g.Chance(0.5) {
+			same = methods[g.Intn(len(methods))]
 		}
 		for _, grp := range groups {
-			m := &cliMon{method: []string{ovsdb.MonitorRPC, ovsdb.ConditionalMonitorRPC, ovsdb.ConditionalMonitorSinceRPC}[g.Intn(3)],
-				req: map[string]monReq{}, after: g.Intn(nt), window: g.Chance(0.35)}
+			method := methods[g.Intn(len(methods))]
+			if same != "" {
+				method = same
+			}
+			m := &cliMon{method: method,
+				req: map[string]monReq{}, after: g.Intn(nt), window: g.Chance(0.4)}
 			for _, ti := range grp {
 				t := sc.Tables[ti]
 				r := monReq{}
@@ -157,16 +170,7 @@ func driveC01(o opts) error {
 				}
 				mon := cl.NewMonitor(optsM...)
 				mon.Method = m.method
-				// The update3 handler of a monitor_cond_since monitor takes the client's monitors lock unless the
-				// update is deferred (only while the first monitor is being set up); Monitor() holds that lock
-				// while paused. Those schedules stall the connection and are explored by C18, not here.
-				windowOK := true
-				for _, om := range mons {
-					if om != m && om.done && (om.method == ovsdb.ConditionalMonitorSinceRPC || m.method == ovsdb.ConditionalMonitorSinceRPC) {
-						windowOK = false
-					}
-				}
-				if m.window && windowOK {
+				if m.window {
 					// pause the client between receiving the monitor reply and applying it;
 					// the transaction that follows is notified inside that window
 					reached := make(chan struct{})
